@@ -29,7 +29,7 @@ TIERS = {
     "thorough": dict(maxdim=3, rich=True, faults=2, dist_faults=1, mut=1000, rec=4000, wide='{"64K", "1M", "4M"}'),
 }
 FAULT_NAMES = {"DropField", "WrongType", "LenMismatch", "NegDim", "DupIndex", "IndexOutOfRange", "LengthTooSmall",
-               "Truncate", "EmptyFile", "BlankLine", "EntryRange", "DropLine", "DropToken", "ExtraToken", "NonNumeric"}
+               "Truncate", "EmptyFile", "BlankLine", "EntryRange", "CellIndex", "DropLine", "DropToken", "ExtraToken", "NonNumeric"}
 CFG_FAULTS = {"DropField", "WrongType", "UnknownName", "ParamLen", "ParamElemType", "ParamIndexRange", "ChildCount", "Truncate"}
 ALL_TYPES = {"Float64", "Float32", "Int", "Int8", "Int16", "Int32", "Int64", "Real64", "Real32",
              "ConstFloat64", "ConstFloat32", "ConstInt", "ConstInt8", "ConstInt16", "ConstInt32", "ConstInt64"}
@@ -64,6 +64,10 @@ def case_stats(path, stats):
         for f in c["faults"]:
             if f["f"] == "EntryRange":
                 stats["range"][(c["fmt"], f["val"], f["notation"])] += 1
+                if o["k"] == "scalar":
+                    stats["range"][("scalar", f["val"], f["notation"])] += 1
+            if f["f"] == "CellIndex":
+                stats["range"][("cell", f["out"], f["other"])] += 1
         for f in c["faults"]:
             stats["faults"][f["f"]] += 1
         stats["types"].update(c["types"])
@@ -216,7 +220,7 @@ def run(ctx):
             for w in ("id", "T", "S", "ST", "TS"):
                 if not any(k[0] == "matrix" and k[2] == st and k[3] == fm and k[4] == w for k in stats["kinds"]):
                     raise vlib.Infra("vacuity: no matrix case %s/%s/%s" % (st, fm, w))
-    for kind, pres in (("scalar", ("used",)), ("dist", ("used",)), ("vector", ("longer", "shorter", "sliced")),
+    for kind, pres in (("scalar", ("used", "used-o1-sameN", "used-o2-sameN", "used-o1-otherN", "used-o2-otherN")), ("dist", ("used",)), ("vector", ("longer", "shorter", "sliced")),
                        ("matrix", ("larger", "smaller", "transposed", "transposedSame", "sliced", "slicedT"))):
         for pre in pres:
             if stats["receivers"][(kind, pre)] == 0:
@@ -233,6 +237,14 @@ def run(ctx):
             for nt in ("dec", "float", "exp"):
                 if stats["range"][(fm, val, nt)] == 0:
                     raise vlib.Infra("vacuity: no %s entry %s/%s at the bounds of the integer types" % (fm, val, nt))
+    for val in ("max", "min", "above", "below", "frac", "huge"):
+        for nt in ("dec", "float", "exp"):
+            if stats["range"][("scalar", val, nt)] == 0:
+                raise vlib.Infra("vacuity: no bare scalar document %s/%s" % (val, nt))
+    for out in ("col=cols", "col=cols+1", "col=-1", "row=rows", "row=-1"):
+        for other in ("first", "last"):
+            if stats["range"][("cell", out, other)] == 0:
+                raise vlib.Infra("vacuity: no sparse matrix entry %s/%s" % (out, other))
     for lay in ("NoFinalNewline", "CRLF", "TrailingBlanks"):
         if stats["layouts"][lay] == 0:
             raise vlib.Infra("vacuity: table layout %s never generated" % lay)
